@@ -56,10 +56,26 @@ ReadBack(r) ==
        \cup If(~CtSame(r.ct, r.back.ct), "r-cistrans")
        \cup If(~CtSame(r.ax, r.back.ax), "r-axis")      \* allene / cumulene marks: the same algebra (Stereo.tla)
 
+\* the styles that drop information on purpose ("!s" configuration, "!b" bond symbols, "!z" charges) drop exactly that:
+\* r.drop = [s, b, z] (0 / 1).  Hydrogen counts are not claimed (the reader derives them from what is left).
+PairSet(B) == { {b[1], b[2]} : b \in B }
+LossyVerdict(r, s) ==
+  IF Len(s.atoms) # Len(r.atoms) THEN {"natoms"}
+  ELSE If(\E k \in 1..Len(r.atoms) : s.atoms[k].z # r.atoms[k].z, "element")
+       \cup If(\E k \in 1..Len(r.atoms) : s.atoms[k].iso # r.atoms[k].i, "isotope")
+       \cup If(r.drop.z = 0 /\ \E k \in 1..Len(r.atoms) : s.atoms[k].chg # r.atoms[k].c, "charge")
+       \cup If(r.drop.z = 1 /\ \E k \in 1..Len(r.atoms) : s.atoms[k].chg # 0, "charge-written-although-dropped")
+       \cup If(r.drop.b = 0 /\ ~BondsAgree(r, s), "bonds")
+       \cup If(r.drop.b = 1 /\ PairSet(BondSet(s)) # PairSet(ObsBonds(r)), "skeleton")
+       \cup If(r.drop.b = 1 /\ \E k \in 1..Len(s.bonds) : s.bonds[k][3] \notin {1, 4}, "bond-symbol-written-although-dropped")
+       \cup If(r.drop.s = 1 /\ \E k \in 1..Len(r.atoms) : TetParity(s, k) # 2, "configuration-written-although-dropped")
+       \cup If(r.drop.s = 1 /\ \E k \in 1..Len(s.bonds) : s.bonds[k][4] # 0, "direction-written-although-dropped")
+       \cup (IF r.drop.s = 0 /\ r.drop.b = 0 THEN StereoVerdict(r, s) ELSE {})
+
 Verdict(r, s0) ==
   LET s == Finish(s0) IN
   IF s.st # "ok" THEN {"w-rejected-by-reference-reader"}
-  ELSE IF r.lossy = 1 THEN {}
+  ELSE IF r.lossy = 1 THEN Prefix("w-", LossyVerdict(r, s))
   ELSE Prefix("w-", GraphVerdict(r, s) \cup StereoVerdict(r, s) \cup HVerdict(r, s) \cup RadVerdict(r, s) \cup LostStereo(r, s)
                     \cup (IF r.maps = 1 THEN NumberVerdict(r, s) ELSE {}))
        \cup ReadBack(r)
